@@ -375,6 +375,9 @@ func store(T types.Type, addr *value, v value) {
 	default:
 		if cur != nil {
 			cur.undo = append(cur.undo, undoEntry{addr, *addr})
+			if cur.alog != nil {
+				cur.onStoreAccess(addr, v)
+			}
 		}
 		*addr = v
 	}
